@@ -4,6 +4,7 @@
 import Mhub2.Votes
 import Mhub2.Oracle
 import Mhub2.Abi
+import Mhub2.Address
 import Mhub2.Generated.Facts
 namespace Mhub2
 
@@ -157,12 +158,13 @@ def parseOp (line : String) : Op :=
   | "vote" :: chain :: signer :: ev => match parseEvent ev with | some e => .vote chain signer e | none => .bad
   | "hash" :: ev => match parseEvent ev with | some e => .hashOf e | none => .bad
   | ["confirm", chain, signer, "set", nonce, ext, sig] =>
-    match nonce.toNat? with | some n => .confirm chain signer (.set n) ext sig | none => .bad
+    -- the claimed signer is parsed (`common.HexToAddress`): its spelling does not matter
+    match nonce.toNat? with | some n => .confirm chain signer (.set n) (canonAddr ext) sig | none => .bad
   | ["confirm", chain, signer, "batch", tok, nonce, ext, sig] =>
-    match nonce.toNat? with | some n => .confirm chain signer (.batch tok n) ext sig | none => .bad
+    match nonce.toNat? with | some n => .confirm chain signer (.batch tok n) (canonAddr ext) sig | none => .bad
   | ["delegate", chain, val, orch, eth, signedBy, signedVal, signedNonce, accSeq] =>
     match signedNonce.toNat?, accSeq.toNat? with
-    | some n, some s => .delegate chain val orch eth signedBy signedVal n s
+    | some n, some s => .delegate chain val orch (canonAddr eth) (canonAddr signedBy) signedVal n s
     | _, _ => .bad
   | ["q_confs", chain, "set", nonce] => match nonce.toNat? with | some n => .qConfs chain (.set n) | none => .bad
   | ["q_confs", chain, "batch", tok, nonce] => match nonce.toNat? with | some n => .qConfs chain (.batch tok n) | none => .bad
